@@ -25,6 +25,19 @@ func init() {
 	childCmds["nnp"] = childNNP
 }
 
+// symbolicFlags builds the flag word from the library's exported constants for the two defined bits (a wrong constant
+// must show up as wrong behaviour), keeping any other bit as given.
+func symbolicFlags(f uint32) seccomp.FilterFlag {
+	out := seccomp.FilterFlag(f &^ 3)
+	if f&1 != 0 {
+		out |= seccomp.FilterFlagTSync
+	}
+	if f&2 != 0 {
+		out |= seccomp.FilterFlagLog
+	}
+	return out
+}
+
 // ---------------------------------------------------------------- C10
 
 type tsyncScript struct {
@@ -46,6 +59,8 @@ type tsyncThread struct {
 	Filters     int    `json:"filters"`
 	BornAfter   bool   `json:"born_after"`
 	ProbeBefore int    `json:"probe_errno_before"`
+	NNP         int    `json:"nnp"`
+	NNPBefore   int    `json:"nnp_before"`
 }
 
 type tsyncReport struct {
@@ -56,6 +71,11 @@ type tsyncReport struct {
 	Threads   []tsyncThread `json:"threads"`
 	Scan      []threadObs   `json:"scan"`
 	Spawned   int64         `json:"threads_spawned_during_load"`
+}
+
+func selfNNP() int {
+	r, _, _ := syscall.RawSyscall6(syscall.SYS_PRCTL, prGetNoNewPrivs, 0, 0, 0, 0, 0)
+	return int(r)
 }
 
 func selfStatus() (sec, filt int) {
@@ -122,6 +142,7 @@ func childTSync(args []string) {
 			runtime.LockOSThread()
 			ths[i].Tid = gettid()
 			ths[i].ProbeBefore = probeGetppid()
+			ths[i].NNPBefore = selfNNP()
 			if sc.Divergent && i == 0 {
 				seccomp.LoadFilter(seccomp.Filter{NoNewPrivs: true, Flag: 0, Policy: *kindPolicy("B")})
 			}
@@ -166,6 +187,7 @@ func childTSync(args []string) {
 			}
 			ths[i].ProbeErrno = probeGetppid()
 			ths[i].Seccomp, ths[i].Filters = selfStatus()
+			ths[i].NNP = selfNNP()
 			finished.Done()
 		}()
 	}
@@ -215,7 +237,7 @@ func childTSync(args []string) {
 			}
 			rep.Seam = nil
 		}
-		err := seccomp.LoadFilter(seccomp.Filter{NoNewPrivs: sc.NNP, Flag: seccomp.FilterFlag(sc.Flags), Policy: *kindPolicy("A")})
+		err := seccomp.LoadFilter(seccomp.Filter{NoNewPrivs: sc.NNP, Flag: symbolicFlags(sc.Flags), Policy: *kindPolicy("A")})
 		atomic.StoreInt32(&loaded, 1)
 		if err != nil {
 			s := err.Error()
@@ -273,7 +295,8 @@ type nnpScript struct {
 	Choice     string `json:"choice"`  // stay | move
 	IdleMs     int    `json:"idle_ms"` // number of idle runtime threads to create before the load (move-old) or 0
 	LoaderMain bool   `json:"loader_main"`
-	WireIdle   int    `json:"wire_idle"` // wire this many goroutines to threads first, so that no idle thread is left (move-new)
+	WireIdle   int    `json:"wire_idle"`  // wire this many goroutines to threads first, so that no idle thread is left (move-new)
+	DenyPrctl  bool   `json:"deny_prctl"` // the process already runs under a filter that answers EPERM to prctl(2) (as container profiles do)
 }
 
 type nnpReport struct {
@@ -335,6 +358,17 @@ func childNNP(args []string) {
 		os.Exit(2)
 	}
 	rep := nnpReport{Uid: os.Getuid(), NNPAtSeam: -1, NNPOnStartThread: -1}
+	if sc.DenyPrctl {
+		// ld nr; jeq 157 (prctl) -> ret ERRNO|EPERM; ret ALLOW, on every thread; needs privilege because the bit must stay 0
+		outer := rawProg{{0x20, 0, 0, 0}, {0x15, 0, 1, 157}, {0x06, 0, 0, 0x00050001}, {0x06, 0, 0, 0x7fff0000}}
+		if e := rawSeccompLoad(outer, len(outer), 1); e != 0 {
+			s := "outer filter could not be installed: " + e.Error()
+			rep.Err = &s
+			b, _ := json.Marshal(rep)
+			os.Stdout.Write(append(b, '\n'))
+			os.Exit(0)
+		}
+	}
 	// optional pool of idle runtime threads that exist before the prctl
 	if sc.IdleMs > 0 {
 		var wg sync.WaitGroup
